@@ -4,6 +4,7 @@ import (
 	"fmt"
 	"go/token"
 	"go/types"
+	"sort"
 	"strings"
 
 	"golang.org/x/tools/go/ssa"
@@ -38,8 +39,18 @@ func addRound2Docs() {
 			if m.Rules == nil {
 				m.Rules = map[string]string{}
 			}
-			for k, v := range docs {
-				m.Rules[k] = v
+			var ks []string
+			for k := range docs {
+				ks = append(ks, k)
+			}
+			sort.Strings(ks)
+			var extra []string
+			for _, k := range ks {
+				m.Rules[k] = docs[k]
+				extra = append(extra, "("+k[strings.Index(k, ".")+1:]+") "+docs[k])
+			}
+			if !strings.Contains(m.Explanation, "Clauses added after the seeded-defect rounds") {
+				m.Explanation += " Clauses added after the seeded-defect rounds: " + strings.Join(extra, "; ") + "."
 			}
 		}
 	}
